@@ -247,3 +247,12 @@ package errbase
 //@   ensures (!typeis(err, *opaqueLeaf) && !typeis(err, *opaqueLeafCauses) && leafEncoders.has(keyOf(err))) ==> leafOf(result).Message == callres0(leafEncoders[keyOf(err)], ctx, err) && leafOf(result).Details.ReportablePayload == callres1(leafEncoders[keyOf(err)], ctx, err) && leafOf(result).Details.FullDetails == (callres2(leafEncoders[keyOf(err)], ctx, err) == nil ? nil : anyOf(callres2(leafEncoders[keyOf(err)], ctx, err)))
 //@   ensures (!typeis(err, *opaqueLeaf) && !typeis(err, *opaqueLeafCauses) && !leafEncoders.has(keyOf(err))) ==> leafOf(result).Message == msg(err) && leafOf(result).Details.ReportablePayload == safeDetailsOf(err)
 //@   loop 1: invariant forall j int :: 0 <= j && j < $n ==> cs[j] != nil && deref(cs[j]) == encOf(causes[j]) && complete(deref(cs[j]))
+
+//@ method (*opaqueLeafCauses).Error
+//@   props C01 C04 C13
+//@   trusted "promoted method: synthetic wrapper around (*opaqueLeaf).Error on the embedded struct"
+//@   ensures result == self.msg
+//@ method (*opaqueLeafCauses).SafeDetails
+//@   props C04 C03 C12
+//@   trusted "promoted method: synthetic wrapper around (*opaqueLeaf).SafeDetails on the embedded struct"
+//@   ensures result == self.details.ReportablePayload
